@@ -83,6 +83,20 @@ class MetaString(type):
         else:
             raise ValueError(f"{value} not a string")
 
+    def _rewrite(cls, buffer, offset, value):
+        """Overwrite an existing string keeping the space fixed at creation"""
+        if cls._size is not None:
+            return cls._to_buffer(buffer, offset, value)
+        info = cls._inspect_args(value)
+        size = Int64._from_buffer(buffer, offset)
+        if info.size > size:
+            raise ValueError(
+                f"`{value}` does not fit in the {size - 8} bytes "
+                "reserved when the string was created"
+            )
+        info.size = size
+        cls._to_buffer(buffer, offset, value, info)
+
     def _get_data(cls, buffer, offset):
         ll = Int64._from_buffer(buffer, offset)
         return buffer.to_bytearray(offset + 8, ll - 8)
